@@ -186,6 +186,32 @@ theorem alloc_proportional_compressed (f : Features) (cached : Option ResultMeta
     · have := alloc_proportional_body f cached h h.body uni
       rw [Nat.add_mul]; omega
 
+/-- The LZ4 path of `decompress` (`lz4Decomp`: the size guard of fix bd65dae in front of the external block
+decoder, which never returns more than the declared size) satisfies the expansion hypothesis with `255·len + 64`. -/
+theorem lz4Decomp_bounded (ext : Bytes → Option Bytes) (b b' : Bytes) (h : lz4Decomp ext b = some b') :
+    b'.length ≤ 255 * b.length + 64 := by
+  unfold lz4Decomp at h
+  split at h
+  · rename_i hg
+    simp only [lz4Guard, decide_eq_true_eq, Bool.decide_and, Bool.and_eq_true] at hg
+    cases he : ext (b.drop 4) with
+    | none => simp [he] at h
+    | some out =>
+      simp only [he, Option.filter] at h
+      split at h
+      · rename_i hl
+        injection h with h; subst h
+        simp only [decide_eq_true_eq] at hl
+        omega
+      · cases h
+  · cases h
+
+/-- Allocation on an LZ4 connection, for ANY block decoder: `≤ 2·(256·len + 64) + 131070` slots. -/
+theorem alloc_proportional_lz4 (f : Features) (cached : Option ResultMeta) (ext : Bytes → Option Bytes) (bs : Bytes)
+    (uni : List (Bytes × UCls)) :
+    (decode f cached (some (lz4Decomp ext)) bs uni).2.alloc ≤ 2 * (256 * bs.length + 64) + 131070 :=
+  alloc_proportional_compressed f cached (lz4Decomp ext) 255 64 (lz4Decomp_bounded ext) bs uni
+
 /-- Recursion depth is bounded by a constant, whatever the bytes are: at most 129 nested binary type
 descriptions (depth 0..128) plus 128 nested `do_parse` calls of the custom type string parser. -/
 theorem depth_bounded (f : Features) (cached : Option ResultMeta) (decomp : Option (Bytes → Option Bytes))
@@ -405,6 +431,68 @@ theorem wellformed_roundtrip_rows (r : RawRows) (cached : Option ResultMeta) (m 
   obtain ⟨s2, h2, hb2⟩ := rt_tag "rowscount" (rt_readIntLength rows.length hn) (rows.flatMap encRow) s1 hb1
   simp only [bind_def, h1, h2, takeRest, hb2, pure_def]
 
+/-- The same for a result sent WITHOUT metadata (flag 0x4: the normal path of a prepared EXECUTE with
+skip-metadata): the metadata is the cached one the caller passed — or empty when there is none — and the rows count
+and rows decode to exactly what was encoded. -/
+theorem wellformed_roundtrip_rows_nometa (r : RawRows) (cached : Option ResultMeta)
+    (rows : List (List (Option Bytes))) (s : St) (hp : r.presence = .noMetadata) (hn : rows.length < 2 ^ 31)
+    (hs : s.buf = encInt rows.length ++ rows.flatMap encRow) :
+    let sm : MetaSource × ResultMeta := match cached with
+      | some c => (.cached, c)
+      | none => (.mockEmpty, ⟨none, 0, []⟩)
+    (∀ row ∈ rows, row.length = sm.2.cols.length ∧ ∀ c ∈ row, WfCell c) →
+    (deserMetadata r cached s).1 = .ok ⟨sm.1, sm.2, rows.length, rows.flatMap encRow⟩ ∧
+    readRows sm.2.cols.length rows.length 0 (rows.flatMap encRow) = (rows, none) := by
+  intro sm hr
+  refine ⟨?_, readRows_roundtrip sm.2.cols.length rows 0 hr⟩
+  obtain ⟨s2, h2, hb2⟩ := rt_tag "rowscount" (rt_readIntLength rows.length hn) (rows.flatMap encRow) s hs
+  unfold deserMetadata metaFor
+  cases cached with
+  | some c => simp only [hp, bind_def, pure_def, h2, takeRest, hb2, sm]
+  | none => simp only [hp, bind_def, pure_def, h2, takeRest, hb2, sm]
+
+/-! ### iterating the rows past an error
+
+`RawRowIterator` is an `ExactSizeIterator` of `rows_count` items: a failing row does not end the iteration and does
+not advance the slice, so the same error is produced for every remaining announced row.  The CPU work of a consumer
+that keeps iterating past errors is therefore proportional to the announced row count, not to the bytes received
+(by design; recorded as an assumption).  What C08 needs is that the iteration terminates and that nothing
+accumulates: each item is built from the current slice only (`readCells` on `buf`), so a consumer that drops or stops
+at errors holds one item at a time. -/
+
+/-- The iteration ends after exactly `rows_count` items, whatever the bytes. -/
+theorem iterRows_length (ncols : Nat) : ∀ (n : Nat) (buf : Bytes), (iterRows ncols n buf).length = n
+  | 0, _ => rfl
+  | n + 1, buf => by
+    unfold iterRows
+    split <;> simp [iterRows_length ncols n]
+
+/-- After the first failing row every further item is that same error (the slice is not advanced). -/
+theorem iterRows_after_error (ncols : Nat) (e : Nat × String) :
+    ∀ (n : Nat) (buf : Bytes), readCells ncols 0 buf = .error e → iterRows ncols n buf = List.replicate n (.error e)
+  | 0, _, _ => rfl
+  | n + 1, buf, h => by
+    unfold iterRows
+    simp only [h, List.replicate_succ]
+    rw [iterRows_after_error ncols e n buf h]
+
+/-- Up to the first error the items are exactly the rows `readRows` returns (the part the harness prints). -/
+theorem iterRows_prefix (ncols : Nat) : ∀ (n ridx : Nat) (buf : Bytes),
+    ((iterRows ncols n buf).takeWhile (fun i => match i with
+      | .ok _ => true
+      | .error _ => false)).map (fun i => match i with
+      | .ok r => r
+      | .error _ => []) = (readRows ncols n ridx buf).1
+  | 0, _, _ => rfl
+  | n + 1, ridx, buf => by
+    unfold iterRows readRows
+    cases h : readCells ncols 0 buf with
+    | error e => obtain ⟨c, k⟩ := e; simp
+    | ok p =>
+      obtain ⟨cells, b⟩ := p
+      simp only [List.takeWhile_cons, if_true, List.map_cons]
+      rw [iterRows_prefix ncols n (ridx + 1) b]
+
 /-! ### truncation of whole responses
 
 FULL STATEMENT (kept): `truncation_is_error : WfResponse f ch r → TR (deserResponse f (opcodeOf r)) (encBody f ch r)`
@@ -473,14 +561,14 @@ example : (decode {} none none [0x84, 0, 0, 0, 0x08, 0, 0, 0, 12, 0, 0, 0, 2, 0,
 
 /-- The hypotheses of the round trip are satisfiable on non-trivial values: a RESULT/Rows header with paging state,
 a WRITE_TIMEOUT error, a column of type `map<int, list<text>>`. -/
-example : WfResponse {} ⟨false, false⟩ (.result (.rows ⟨3, true, .justMetadata, some [1, 2]⟩)) := by
+example : WfResponse {} ⟨false, false, none⟩ (.result (.rows ⟨3, true, .justMetadata, some [1, 2]⟩)) := by
   show WfRawRows _ _
   unfold WfRawRows
   refine ⟨?_, by decide, ?_⟩
   · intro h; cases h
   · intro p hp; injection hp with hp; subst hp; decide
 
-example : WfResponse {} ⟨false, false⟩
+example : WfResponse {} ⟨false, false, none⟩
     (.error ⟨0x1100, S "timeout", [.cons 6, .int 1, .int 2, .str (S "SIMPLE")]⟩) := by
   show WfError _ _
   unfold WfError
@@ -495,5 +583,51 @@ example : WfResponse {} ⟨false, false⟩
 
 example : BinTy (.map false (.native .int) (.list false (.native .text))) 129 := by
   simp [BinTy]
+
+/-- One column `ks.t.c : list<int>` (per-column table spec). -/
+def exCol : ColSpec := ⟨S "ks", S "t", S "c", .list false (.native .int)⟩
+
+theorem exCol_wf : WfCol none exCol := by
+  refine ⟨wfS _ (by decide +kernel), by simp [exCol, BinTy], ?_⟩
+  exact ⟨wfS _ (by decide +kernel), wfS _ (by decide +kernel)⟩
+
+/-- `WfRowsMeta` is satisfiable: a Rows result with one column of a nested type and a new metadata id. -/
+example : WfRowsMeta ⟨1, false, .withNewId, none⟩ ⟨some [7, 7], 1, [exCol]⟩ := by
+  refine ⟨by decide, by simp, ?_, rfl, rfl, ?_, by intro h; cases h⟩
+  · intro i hi; injection hi with hi; subst hi; decide
+  · intro c hc
+    simp only [List.mem_singleton] at hc; subst hc
+    simpa [gtsOf] using exCol_wf
+
+/-- `WfPrepared` is satisfiable: two partition-key indexes, one bind marker column, result metadata with one
+column, the metadata-id extension on, a new id announced inside the result metadata. -/
+example : WfPrepared { metadataId := true } false false (some [1])
+    ⟨[0xAB], ⟨0, 1, [(1, 0), (0, 1)], [exCol]⟩, ⟨some [9], 1, [exCol]⟩⟩ := by
+  have hcols : WfGtsCols false [exCol] := by
+    refine ⟨?_, by intro h; cases h⟩
+    intro c hc
+    simp only [List.mem_singleton] at hc; subst hc
+    simpa [gtsOf] using exCol_wf
+  refine ⟨by decide, rfl, ?_, ?_, ?_⟩
+  · intro i hi; injection hi with hi; subst hi; decide
+  · refine ⟨by decide, rfl, by decide, by decide, ?_, by decide, ?_⟩
+    · intro p hp
+      simp only [List.mem_cons, List.mem_nil_iff, or_false] at hp
+      rcases hp with rfl | rfl <;> decide
+    · simpa [flagSet] using hcols
+  · refine ⟨by decide, ?_, ?_⟩
+    · intro i hi; injection hi with hi; subst hi; exact ⟨rfl, rfl, by decide⟩
+    · simp only [Bool.false_eq_true, if_false]
+      exact ⟨rfl, hcols⟩
+
+/-- `WfEvent` / `WfSchemaChange` are satisfiable: a node coming up, and a dropped function with two arguments. -/
+example : WfEvent (.status (S "UP") ⟨[10, 0, 0, 1], 9042⟩) :=
+  ⟨Or.inl rfl, Or.inl rfl, by decide⟩
+
+example : WfSchemaChange ⟨S "DROPPED", S "ks", .function (S "f") [S "int", S "text"]⟩ := by
+  refine ⟨wfS _ (by decide +kernel), wfS _ (by decide +kernel), wfS _ (by decide +kernel), by decide, ?_⟩
+  intro x hx
+  simp only [List.mem_cons, List.mem_nil_iff, or_false] at hx
+  rcases hx with rfl | rfl <;> exact wfS _ (by decide +kernel)
 
 end ScyllaVerif.Props.C08
